@@ -699,7 +699,8 @@ class UmEngine:
 			toolkit.tk(m)
 
 	def generate(self, seed, prop, tier):
-		if prop == "C03" and rng_for(seed, "profile").random() < 0.55:
+		share = {"C03": 0.55, "C12": 0.2, "C05": 0.15}.get(prop, 0.0)
+		if share and rng_for(seed, "profile").random() < share:
 			plan = um_race.build_race_plan(rng_for(seed, "plan"), tier)
 			plan["seed"] = seed
 			return plan
@@ -814,9 +815,10 @@ class UmEngine:
 		sim = w.sim
 		viols, stats = um_race.check_race(sim.history, plan["config"])
 		if stuck:
-			viols.insert(0, {"clause": "C03.deadlock", "detail": {"blocked": str(stuck)[:200]}, "owners": ["C03"]})
+			viols.insert(0, {"clause": "C03.deadlock", "detail": {"blocked": str(stuck)[:200]}, "owners": ["C03", "C05", "C12"]})
 		for v in viols:
 			if v["clause"] == "C03.thread-death":
+				v["owners"] = ["C03", "C05", "C12"]
 				v["signature"] = "thread-death/%s/%s" % (v["detail"]["exc"], v["detail"]["where"][-1] if v["detail"]["where"] else "?")
 		res.violations = viols
 		res.sim_ns = sim.now
